@@ -119,7 +119,7 @@ def c12_spec_lines_are_oracle(chk):
 prop(
     "C12",
     level_text="Machine-checked theorems (Lean 4 kernel) about a hand-written mirror of the FSE and bit-I/O code: bit reader/writer refine the RFC bit order for all sources/requests (n <= 56 reversed, <= 64 forward, <= 63 writer); the closed form of calc_baseline_and_numbits equals the RFC procedure, the spreading walk is a permutation and the per-symbol state ranges partition the table for every accuracy log the format allows (finite cores evaluated by the kernel, AL <= 9); decoder table = Spec table and encoder table = decoder table for every valid distribution; predefined tables = RFC; the normaliser yields a valid distribution for every histogram with production parameters except the single-symbol-0 histogram (finding F4, proved to fault); stream round trips (single and two-state) consume exactly all bits. The mirror is tied to the code by the correspondence engines bits and fse (production parameters).",
-    engines=[{"name": "bits"}, {"name": "fse"}],
+    engines=[{"name": "bits"}, {"name": "fse"}, {"name": "enc", "args": ["--focus", "entropy"], "model": False}],
     post_engines=[c12_spec_lines_are_oracle],
     modelled="BitReader/BitReaderReversed/BitWriter, FSE decoder table reader/builder, FSE encoder normaliser/table builder/description writer/stream encoders and the two decode loops are hand-written mirrors of the Rust; spreading-step constants, accuracy-log offset, max logs, production arguments of the table builder (max log 9/9/8/6, zero-bit avoidance flag) and the six predefined distribution arrays are extracted from the source text on every run",
     assumptions=[
